@@ -102,11 +102,13 @@ def run(repo: Repo, chk: Check, thorough: bool = False) -> None:
                     if l is None:
                         continue
                     test, pol = l
+                    outer = test
+                    while isinstance(test, ast.UnaryOp) and isinstance(test.op, ast.Not):
+                        test, pol = test.operand, not pol
                     txt = norm(test)
-                    is_cm = ('isinstance(self.obj' in txt and 'CanContainImportsDocumentable' in txt and
-                             ((isinstance(test, ast.UnaryOp) and not pol) or (not isinstance(test, ast.UnaryOp) and pol)))
+                    is_cm = 'isinstance(self.obj' in txt and 'CanContainImportsDocumentable' in txt and pol
                     not_fn = ('isinstance(self.obj, model.Function)' == txt and not pol and
-                              any('isinstance(self.obj, model.Attribute)' == norm(p.test) for p in parents(test) if isinstance(p, ast.If)))
+                              any('isinstance(self.obj, model.Attribute)' in norm(p.test) for p in parents(outer) if isinstance(p, ast.If)))
                     if is_cm or not_fn:
                         adm_edges.append((nid, id(t), k))
             if adm_edges and id(cfg.EXIT) not in cfg.reachable(cfg.ENTRY, avoid_nodes=cons, avoid_edges=adm_edges, no_exc=True) \
